@@ -155,7 +155,7 @@ pub fn run(tier: Tier, seed: u64) -> i32 {
             "token names are extracted from messages with a closed lexicon (quoted one-character signs, upper-case class names)",
         ],
         &|c| check_case(c).to_result(),
-        &[("parses with several recovered errors occur", multi > 0)],
+        &[("syntax errors with an expectation vector occur", multi + stats.outcome_count("errors-per-parse:1") > 0)],
     )
 }
 
